@@ -54,6 +54,8 @@ def configs(quick):
     c.append(dict(name="large_mesh", dev="ring", mel=0.16, adaptive=False, dt=1e-3, T=0.004))
     # progress reports on (they measure wall-clock time), ramped field: only what is printed may depend on the clock
     c.append(dict(name="progress_reports_ramped_field", dev="bar", current=2.0, timedep=True, adaptive=True, T=0.12, progress=3))
+    # a vector potential TABULATED once on the mesh edges: the callable hands the solver the array it keeps
+    c.append(dict(name="tabulated_potential", dev="bar", current=2.0, tabulated=True, adaptive=True, T=0.1))
     # a run shorter than the save interval (only the first and the last state are kept): the per-step record buffer is
     # never filled, so nothing may be read from its unused tail
     c.append(dict(name="shorter_than_save_interval", dev="bar", current=2.0, adaptive=True, T=0.2, save_every=1000))
